@@ -33,12 +33,14 @@ theorem source_arbitrage_is_model (v ttl : Nat) (th idx ip p0 p1 : K) (s0 s1 : I
 /-- **the market maker's source is `mmOrders`** around what `get_base_price` answers, or around the market
 price when it answers `None` -/
 theorem source_market_maker_is_model (ttl : Nat) (spread base mp fund : K) :
-    resultG ordersObs (rhoMm ttl spread base mp fund) (mmEnv true) FUEL "MarketMakerAgent.submit_orders"
-        [.ref 1, .list [.ref 5]] mmSt
-      = .tuple ((mmOrders base fund spread (PyNum.ofInt 1 / PyNum.ofInt 2) ttl).map (aorderObs 0)) ∧
-    resultG ordersObs (rhoMm ttl spread base mp fund) (mmEnv false) FUEL "MarketMakerAgent.submit_orders"
-        [.ref 1, .list [.ref 5]] mmSt
-      = .tuple ((mmOrders mp fund spread (PyNum.ofInt 1 / PyNum.ofInt 2) ttl).map (aorderObs 0)) :=
+    resultG mmObs (rhoMm ttl spread base mp fund) (mmEnv true) FUEL "MarketMakerAgent.submit_orders"
+        [.ref 1, .list [.ref 5, .ref 6]] mmSt
+      = .tuple [.tuple ((mmOrders base fund spread (PyNum.ofInt 1 / PyNum.ofInt 2) ttl).map (aorderObs 0)),
+                .tuple [.tuple [.tuple [.ref 5, .ref 6]]]] ∧
+    resultG mmObs (rhoMm ttl spread base mp fund) (mmEnv false) FUEL "MarketMakerAgent.submit_orders"
+        [.ref 1, .list [.ref 5, .ref 6]] mmSt
+      = .tuple [.tuple ((mmOrders mp fund spread (PyNum.ofInt 1 / PyNum.ofInt 2) ttl).map (aorderObs 0)),
+                .tuple [.tuple [.tuple [.ref 5, .ref 6]]]] :=
   ⟨mm_src_base ttl spread base mp fund, mm_src_no_base ttl spread base mp fund⟩
 
 /-- **the FCN agent's source (fixed margin) is the documented formula** `fcnSrcOrders`, on every one of the
